@@ -98,8 +98,11 @@ NwayAfterOcc == {Inst("n-way split after an occupancy split", <<r, ds>>, WithPar
                                                <<"uniform_occupancy(A.6)", "uniform_shape(4)", "nway_shape(2)">>, <<UO, "uniform_shape(4)", "uniform_shape(2)", "nway_shape(2)">>,
                                                <<"uniform_shape(8)", UO, "uniform_shape(2)", "nway_shape(2)">>}}
 \* 11. a shape split after flattening
-ShapeAfterFlatten == {Inst("a shape split after flattening", <<ds>>, WithPart(Gemm, "Z", <<Ent(<<"K", "M">>, <<"flatten()">>), Ent(<<"KM">>, ds)>>)) :
-                         ds \in {<<"uniform_shape(2)">>, <<"nway_shape(2)">>, <<"uniform_shape(4)", "uniform_occupancy(A.2)">>, <<"nway_shape(2)", "uniform_occupancy(A.2)">>}}
+\* (the entries of the mapping in either order; the shape split first, or after one or two occupancy splits of the flattened rank)
+ShapeAfterFlattenStacks == {<<"uniform_shape(2)">>, <<"nway_shape(2)">>, <<"uniform_shape(4)", "uniform_occupancy(A.2)">>, <<"nway_shape(2)", "uniform_occupancy(A.2)">>,
+                            <<"uniform_occupancy(A.4)", "uniform_shape(2)">>, <<"uniform_occupancy(A.4)", "uniform_occupancy(A.2)", "uniform_shape(2)">>}
+ShapeAfterFlatten == {Inst("a shape split after flattening", <<ds, "tuple first">>, WithPart(Gemm, "Z", <<Ent(<<"K", "M">>, <<"flatten()">>), Ent(<<"KM">>, ds)>>)) : ds \in ShapeAfterFlattenStacks}
+                     \cup {Inst("a shape split after flattening", <<ds, "flattened rank first">>, WithPart(Gemm, "Z", <<Ent(<<"KM">>, ds), Ent(<<"K", "M">>, <<"flatten()">>)>>)) : ds \in ShapeAfterFlattenStacks}
 \* 12. a non-flatten directive on a rank tuple: 2- and 3-tuples x directive kinds
 NonFlattenTuple == {Inst("a non-flatten directive on a rank tuple", <<rs, d>>, WithPart(b, "Z", <<Ent(rs, <<d>>)>>)) :
                        b \in {Copy3}, rs \in {<<"K", "M">>, <<"M", "N">>, <<"K", "M", "N">>}, d \in {"uniform_shape(2)", "nway_shape(2)", "uniform_occupancy(A.2)"}}
